@@ -603,10 +603,23 @@ thread_local! {
     static USER: std::cell::RefCell<Option<UserObj>> = const { std::cell::RefCell::new(None) };
 }
 
-/// Runs one thread scenario; returns (dropped, destructed, failure description).
-fn tls_case(order: u32, kinds: &[u32]) -> (usize, usize, Option<String>) {
+/// Runs one thread scenario; returns (dropped, destructed, failure description, early).
+/// `early`: objects released by the thread (all of them from its thread-local destructor or its body, i.e. after the
+/// reader below had pinned) that were destructed while that reader's critical section was still active.
+fn tls_case(order: u32, kinds: &[u32]) -> (usize, usize, Option<String>, usize) {
     let counter = Arc::new(AtomicUsize::new(0));
     let dropped = Arc::new(AtomicUsize::new(0));
+    // a reader that is inside a critical section before the thread starts and until after it has exited: nothing the
+    // thread releases may be destructed meanwhile (C13), whatever guard its tear-down code obtained from cs()
+    let (ready_tx, ready_rx) = std::sync::mpsc::channel();
+    let (rel_tx, rel_rx) = std::sync::mpsc::channel::<()>();
+    let reader = std::thread::spawn(move || {
+        let g = circ::cs();
+        let _ = ready_tx.send(());
+        let _ = rel_rx.recv();
+        drop(g);
+    });
+    let _ = ready_rx.recv();
     let (c2, d2, k2) = (counter.clone(), dropped.clone(), kinds.to_vec());
     let (tx, rx) = std::sync::mpsc::channel();
     let joiner = std::thread::spawn(move || {
@@ -648,6 +661,15 @@ fn tls_case(order: u32, kinds: &[u32]) -> (usize, usize, Option<String>) {
         }
         Err(_) => Some("deadlock: the thread did not exit within 20 s".to_string()),
     };
+    // while the reader is still pinned: collection rounds of the main thread must not destruct anything
+    for _ in 0..30 {
+        let g = circ::cs();
+        g.flush();
+        drop(g);
+    }
+    let early = counter.load(Ordering::SeqCst);
+    let _ = rel_tx.send(());
+    let _ = reader.join();
     let want = dropped.load(Ordering::SeqCst);
     // the main thread collects
     let mut rounds = 0;
@@ -657,7 +679,7 @@ fn tls_case(order: u32, kinds: &[u32]) -> (usize, usize, Option<String>) {
         drop(g);
         rounds += 1;
     }
-    (want, counter.load(Ordering::SeqCst), fail)
+    (want, counter.load(Ordering::SeqCst), fail, early)
 }
 
 pub fn run(out_path: &str, seed: u64, thorough: bool) -> (u64, u64, u64) {
@@ -745,13 +767,22 @@ pub fn run(out_path: &str, seed: u64, thorough: bool) -> (u64, u64, u64) {
     }
     for (mo, order, kinds) in scen {
         ebr::set_tuning(mo, if mo == 64 { 64 } else { 2 });
-        let (want, got, fail) = tls_case(order, &kinds);
+        let (want, got, fail, early) = tls_case(order, &kinds);
         let ks: Vec<i64> = kinds.iter().map(|k| *k as i64).collect();
         out.line(&format!("@tls {} {} {} => {} {}", mo, order, fmt_ints(&ks), want, got));
         checks += 3;
         if let Some(f) = fail {
             nfail += 1;
             out.line(&format!("PROPFAIL C20 maxobj={} order={} kinds=[{}]: {}", mo, order, fmt_ints(&ks), f));
+        }
+        if early != 0 {
+            for pid in ["C20", "C13", "C16"] {
+                nfail += 1;
+                out.line(&format!(
+                    "PROPFAIL {} maxobj={} order={} kinds=[{}]: {} objects released during the tear-down of a thread were destructed while a critical section of another thread, active since before that thread started, was still active",
+                    pid, mo, order, fmt_ints(&ks), early
+                ));
+            }
         }
         if got != want {
             nfail += 1;
